@@ -214,6 +214,16 @@ func (v *V2) RecoverIndex(buf []byte, startFileOffset uint32, baseEntryOffset in
 		var err error
 		if payloadSize, _, payloadCrc, err = v.ReadHeaderWithValidation(buf, newFileOffset); err != nil {
 			if errors.Is(err, ErrEmptyPayload) {
+				if hasData(buf[newFileOffset:]) {
+					// a zeroed length field in front of live bytes is damage, not the end of the log
+					// (segments are zero-filled at creation and on truncation)
+					if commitOffset != nil && currentEntryOffset > *commitOffset {
+						slog.Warn("discard the corrupted uncommitted data.",
+							slog.Int64("entryId", currentEntryOffset), slog.Any("error", err))
+						break
+					}
+					return nil, 0, 0, 0, errors.Wrapf(ErrDataCorrupted, "entryOffset: %d: %v", currentEntryOffset, err)
+				}
 				// we might read the end of the segment.
 				break
 			}
@@ -235,6 +245,15 @@ func (v *V2) RecoverIndex(buf []byte, startFileOffset uint32, baseEntryOffset in
 		currentEntryOffset++
 	}
 	return index, lastCrc, newFileOffset, currentEntryOffset - 1, nil
+}
+
+func hasData(b []byte) bool {
+	for _, c := range b {
+		if c != 0 {
+			return true
+		}
+	}
+	return false
 }
 
 func (v *V2) GetIndexHeaderSize() uint32 {
